@@ -1,6 +1,8 @@
 (* C20 - Windowed image I/O is total and places data where it belongs. *)
 From Coq Require Import ZArith List Bool Permutation.
 From HV Require Import Base.ZRange Grid.Window Grid.WindowProofs Grid.Dataset Grid.DatasetProofs.
+From HVgen Require Import Blocks.
+From HV Require Import Tie.BlockTie.
 Import ListNotations.
 Open Scope Z_scope.
 
@@ -78,3 +80,11 @@ Example C20_read_example :
    read_window ds (fun _ _ => true) false 10 10 (-1) {| w_row := 8; w_col := 8; w_h := 4; w_w := 4 |} 2 1)
   = (-1, 99, -1).
 Proof. reflexivity. Qed.
+
+(* ---- tie to the source: bounded_window_slices in the current raster_array.py computes Grid.Window.bounded_axis on each axis *)
+Theorem C20_source_bounded_window_slices n off len :
+  let bul := gen_bounded_ul n off len in let bbr := gen_bounded_br n off len bul in
+  let st := gen_bounded_start n off len bul bbr in let sp := gen_bounded_stop n off len bul bbr st in
+  bounded_axis n off len = ((bul, bbr), (st, sp)) /\ gen_bounded_results_ok = true.
+Proof. exact (tie_bounded n off len). Qed.
+Print Assumptions C20_source_bounded_window_slices.
